@@ -106,7 +106,7 @@ func (r RegistryHandler) EncryptWithClientID(clientID, data []byte, setting conf
 	}
 
 	// case when data encrypted on app side (for example AcraStructs with AcraWriter) and should not be encrypted second time
-	if handler.MatchDataSignature(data) || r.MatchDataSignature(data) {
+	if (handler.MatchDataSignature(data) || r.MatchDataSignature(data)) && IsWholeEnvelope(data) {
 		return data, nil
 	}
 
@@ -121,7 +121,7 @@ func (r RegistryHandler) EncryptWithClientID(clientID, data []byte, setting conf
 // EncryptWithHandler call EncryptWithClientID with specified handler
 func (r RegistryHandler) EncryptWithHandler(handler ContainerHandler, id, data []byte) ([]byte, error) {
 	// case when data encrypted on app side (for example AcraStructs with AcraWriter) and should not be encrypted second time
-	if handler.MatchDataSignature(data) || r.MatchDataSignature(data) {
+	if (handler.MatchDataSignature(data) || r.MatchDataSignature(data)) && IsWholeEnvelope(data) {
 		return data, nil
 	}
 	encrypted, err := handler.EncryptWithClientID(id, data, &encryptor.DataEncryptorContext{Keystore: r.keystore})
